@@ -9,7 +9,7 @@ import json
 import random
 
 import structure
-from common import Report, ToolError, chars, check_action_coverage, log, run_cases, run_tlc, std_main
+from common import Report, ToolError, chars, check_action_coverage, log, run_cases, run_tlc, stable_hash, std_main
 
 
 def render(c):
@@ -34,6 +34,7 @@ def render(c):
         word, files = "*", {"!a": "", pay: "", "~z": ""}     # sorted: !a < payload < ~z for every payload of the model
     else:
         word, files = "*", {pay: ""}
+    word = c.get("pre", "") + word      # literal text in front, in the same word (`k=$PV` is an argument, not an assignment)
     if c["q"] == "dq":
         word = '"%s"' % word
     if c["pos"] == "first":
@@ -61,7 +62,8 @@ def judge(rep, c, line, b, a, files, res):
         pay = pay + "z"
     elif c["del"] == "var2r":
         pay = "z" + pay
-    feat = {"del": c["del"], "q": c["q"], "pos": c["pos"], "pay": raw, "pay_is_amp": raw == "&", "chars": sorted(set(pay) & set("|&;<>#"))}
+    pay = c.get("pre", "") + pay
+    feat = {"pre": c.get("pre", ""), "del": c["del"], "q": c["q"], "pos": c["pos"], "pay": raw, "pay_is_amp": raw == "&", "chars": sorted(set(pay) & set("|&;<>#"))}
     rec = {"case": c, "line": line, "status": res.get("status"), "stderr": res.get("stderr", "")[-300:], "log": res.get("log"),
            "files": sorted(res.get("files", {}))}
 
@@ -122,6 +124,8 @@ def runner(rep, tier, seed, replay):
     log("[C13] %d cases" % len(cases))
     jobs, meta = [], []
     for c in cases:
+        if c["del"] not in ("glob", "glob2"):
+            c["pre"] = ["", "", "", "k=", "--o=", "x."][stable_hash(json.dumps(c, sort_keys=True)) % 6]
         line, b, a, files, vh, env = render(c)
         jobs.append({"entry": "c", "text": line, "files": files, "vhfiles": vh, "env": dict(env, VH_DELAY_IF_LAST_AMP="200"), "timeout": 8,
                      "snapshot_log_at_exit": True, "linger": 1.0 if chars(c["pay"]) == "&" else None})
